@@ -356,4 +356,64 @@ func runPlugins(r *mon.Run) {
 			}
 		}
 	}
+	// plugin recipients that FAIL to wrap the file key, in every way a session
+	// can fail — also after a stanza was already handed over: a recipient that
+	// fails makes Encrypt refuse, with nothing written
+	rs0 := plug.Step{Send: plug.Stanza("recipient-stanza", []string{"0", "fake"}, []byte("0123456789abcdef0123456789abcdef"))}
+	perr := plug.Step{Send: plug.Stanza("error", []string{"internal"}, []byte("token not present"))}
+	perr0 := plug.Step{Send: plug.Stanza("error", []string{"recipient", "0"}, []byte("bad recipient"))}
+	lbl := plug.Step{Send: plug.Stanza("labels", []string{"a"}, nil)}
+	done := plug.Step{Send: plug.Stanza("done", nil, nil), NoReply: true}
+	failing := []struct {
+		name string
+		sc   *plug.Script
+	}{
+		{"error-only", &plug.Script{Steps: []plug.Step{perr, done}}},
+		{"stanza-then-error", &plug.Script{Steps: []plug.Step{rs0, perr, done}}},
+		{"error-then-stanza", &plug.Script{Steps: []plug.Step{perr, rs0, done}}},
+		{"stanza-error-stanza", &plug.Script{Steps: []plug.Step{rs0, perr0, rs0, done}}},
+		{"stanza-labels-error", &plug.Script{Steps: []plug.Step{rs0, lbl, perr, done}}},
+		{"two-errors", &plug.Script{Steps: []plug.Step{perr, perr0, done}}},
+		{"no-stanza-done", &plug.Script{Steps: []plug.Step{done}}},
+		{"stanza-then-exit", &plug.Script{Steps: []plug.Step{rs0}, End: "exit"}},
+		{"stanza-then-closed-stdout", &plug.Script{Steps: []plug.Step{rs0}, End: "linger"}},
+		{"stanza-error-in-one-write", &plug.Script{Steps: []plug.Step{rs0, perr, done}, Burst: true}},
+	}
+	xr := keys.P("X1").Recipient
+	for _, f := range failing {
+		for pos, shape := range []string{"alone", "first", "last", "middle"} {
+			env.Install("flaky")
+			env.SetScript("flaky", f.sc)
+			bad, err := plugin.NewRecipient(refage.Bech32Encode("age1flaky", []byte{1, 2, 3}), &plugin.ClientUI{})
+			if err != nil {
+				panic(err)
+			}
+			var rs []age.Recipient
+			switch shape {
+			case "alone":
+				rs = []age.Recipient{bad}
+			case "first":
+				rs = []age.Recipient{bad, xr}
+			case "last":
+				rs = []age.Recipient{xr, keys.P("X2").Recipient, bad}
+			case "middle":
+				rs = []age.Recipient{xr, bad, keys.P("E1").Recipient}
+			}
+			dst := &mon.ObservingWriter{}
+			_, err = age.Encrypt(dst, rs...)
+			r.Eval(1)
+			desc := fmt.Sprintf("failing-plugin(%s) %s", f.name, shape)
+			r.Distinct(desc)
+			r.Count("failing_plugin_cases", 1)
+			_ = pos
+			if err == nil {
+				r.Violate("accepted-failing-recipient:plugin:"+f.name, fmt.Sprintf("Encrypt(%s): a recipient whose plugin session failed was accepted, %d bytes written", desc, dst.Len()), map[string]any{"case": desc})
+			} else if dst.Len() != 0 {
+				r.Violate("bytes-on-refusal:failing-plugin:"+f.name, fmt.Sprintf("%s: refused after %d bytes", desc, dst.Len()), map[string]any{"case": desc})
+			}
+		}
+	}
+	if r.Counter("failing_plugin_cases") == 0 {
+		r.Inconclusive("no failing plugin recipient was exercised")
+	}
 }
